@@ -1,17 +1,46 @@
+// Package vtime: the virtual clock. Time advances only when no thread can run.
 package vtime
 
-import "time"
+import (
+	"time"
 
-type Duration = time.Duration
-type Time = time.Time
-
-const (
-	Nanosecond  = time.Nanosecond
-	Millisecond = time.Millisecond
-	Second      = time.Second
+	vrt "verif/rt"
 )
 
-var base = time.Date(2026, 1, 1, 0, 0, 0, 0, time.UTC)
+func Now() time.Time                  { return vrt.Now() }
+func Sleep(d time.Duration)           { vrt.Sleep(d) }
+func Since(t time.Time) time.Duration { return vrt.Now().Sub(t) }
+func Until(t time.Time) time.Duration { return t.Sub(vrt.Now()) }
 
-func Now() time.Time      { return base }
-func Sleep(time.Duration) {}
+// AfterFunc runs f on its own controlled thread once d has passed.
+func AfterFunc(d time.Duration, f func()) *Timer {
+	t := &Timer{}
+	vrt.GoNamed("", func() {
+		vrt.Sleep(d)
+		if !t.stopped {
+			t.fired = true
+			f()
+		}
+	})
+	return t
+}
+
+// After returns a channel that receives the time once d has passed (a buffered send from a controlled thread).
+func After(d time.Duration) <-chan time.Time {
+	ch := make(chan time.Time, 1)
+	vrt.GoNamed("", func() {
+		vrt.Sleep(d)
+		ch <- vrt.Now()
+	})
+	return ch
+}
+
+type Timer struct {
+	stopped, fired bool
+}
+
+func (t *Timer) Stop() bool {
+	was := !t.stopped && !t.fired
+	t.stopped = true
+	return was
+}
